@@ -221,3 +221,454 @@ Proof.
   destruct (bcast_shapes (c_shape a) (c_shape b)) as [sz|] eqn:Ez; [|discriminate]. inv E.
   apply (binary_op_sound s ta tb a b outs sz Ca Cb I Ez (F _ _ Ea Eb)). reflexivity.
 Qed.
+
+(* ---------------------------------------------------------------- generated symbols *)
+Lemma claim_gen s k v : claim s (gen_pos k) v = true.
+Proof.
+  unfold claim, gen_pos. cbn [has_synth]. unfold synth_base.
+  replace (100 <=? 100 + k)%N with true; [reflexivity|]. symmetry. apply N.leb_le. lia.
+Qed.
+Lemma all2_claim_gen s k : forall vs, all2 (claim s) (gen_shape_from k (length vs)) vs = true.
+Proof.
+  intros vs. revert k. induction vs as [|x vs IH]; intros k; cbn [gen_shape_from length all2]; auto.
+  rewrite claim_gen. cbn [andb]. apply IH.
+Qed.
+
+(* ---------------------------------------------------------------------------- Shape *)
+Lemma all2_slice_list {A B} (f : A -> B -> bool) a b x y :
+  all2 f a b = true -> all2 f (slice_list a x y) (slice_list b x y) = true.
+Proof. intros H. unfold slice_list. apply all2_firstn, all2_skipn, H. Qed.
+
+Lemma zlen_i32_of_all2 s (l : list expr) (vs : list Z) :
+  all2 (expr_cons s) l vs = true -> zlen vs = zlen l.
+Proof. intros H. unfold zlen. rewrite (all2_length _ _ _ H). reflexivity. Qed.
+
+(* the result of Shape is a vector: its length must fit an i32 *)
+Definition shape_len_ok (cins : list (option ctensor)) (couts : list ctensor) : Prop :=
+  forall c, In c couts -> forallb (fun d => in_i32 d) (c_shape c) = true.
+
+Theorem infer_sound_Shape v st en : sound_for v (OShape st en) shape_len_ok.
+Proof.
+  intros s ins cins outs couts A I E X. cbn [infer_with] in I. unfold infer_shape in I.
+  destruct (input ins 0) as [t|] eqn:Ei; [|discriminate].
+  destruct (cons_input _ _ _ _ _ A Ei) as (c & Ec & C). cbn [exec_ref] in E. rewrite Ec in E.
+  destruct (t_shape t) as [dims|] eqn:Et; [|inv I; destruct (shape_range st en (zlen (c_shape c))); inv E; reflexivity].
+  destruct (t_shape_cons _ _ _ _ C Et) as [H _].
+  rewrite (zlen_i32_of_all2 _ _ _ H) in E.
+  destruct (shape_range st en (zlen dims)) as [x y]. inv I. inv E.
+  apply claims_all_one. cbn [claims cvector c_shape c_data].
+  assert (H2 := all2_slice_list _ _ _ x y H).
+  rewrite (zlen_i32_of_all2 _ _ _ H2), Z.eqb_refl. cbn [andb]. apply all2_claim_of_cons, H2.
+Qed.
+
+(* ------------------------------------------------------------------------ Transpose *)
+Lemma permute_sound s dims sh : all2 (expr_cons s) dims sh = true ->
+  forall perm l sz, permute dims perm = Some l -> zpermute sh perm = Some sz -> all2 (claim s) l sz = true.
+Proof.
+  intros H. induction perm as [|p perm IH]; intros l sz P Z0; cbn [permute zpermute] in *.
+  - inv P. inv Z0. reflexivity.
+  - destruct (nth_error dims p) as [d|] eqn:Ed; [|discriminate].
+    destruct (permute dims perm) as [r|] eqn:Er; [|discriminate]. inv P.
+    destruct (nth_error sh p) as [x|] eqn:Ex; [|discriminate].
+    destruct (zpermute sh perm) as [rz|] eqn:Erz; [|discriminate]. inv Z0.
+    destruct (all2_nth _ _ _ _ _ H Ed) as (x' & Ex' & Hc). rewrite Ex in Ex'. inv Ex'.
+    cbn [all2]. rewrite (claim_of_cons _ _ _ Hc). cbn [andb]. eauto.
+Qed.
+
+Lemma zpermute_length sh perm sz : zpermute sh perm = Some sz -> length sz = length perm.
+Proof.
+  revert sz; induction perm as [|p perm IH]; intros sz H; cbn [zpermute] in H.
+  - inv H. reflexivity.
+  - destruct (nth_error sh p); [|discriminate]. destruct (zpermute sh perm); [|discriminate]. inv H.
+    cbn [length]. f_equal. auto.
+Qed.
+
+Theorem infer_sound_Transpose v perm : sound_for v (OTranspose perm) no_extra.
+Proof.
+  intros s ins cins outs couts A I E _. cbn [infer_with] in I. unfold infer_transpose in I.
+  destruct (input ins 0) as [t|] eqn:Ei; [|discriminate].
+  destruct (cons_input _ _ _ _ _ A Ei) as (c & Ec & C). cbn [exec_ref] in E. rewrite Ec in E.
+  destruct (t_shape t) as [dims|] eqn:Et.
+  - destruct (t_shape_cons _ _ _ _ C Et) as [H _]. destruct perm as [p|].
+    + destruct (permute dims p) as [l|] eqn:Ep; [|discriminate]. inv I.
+      destruct (Nat.eqb (length p) (length (c_shape c))); [|discriminate].
+      destruct (zpermute (c_shape c) p) as [sz|] eqn:Ez; [|discriminate]. inv E.
+      apply claims_all_one. cbn [claims cshape c_shape]. eapply permute_sound; eauto.
+    + inv I. inv E. apply claims_all_one. cbn [claims cshape c_shape]. apply all2_claim_of_cons, all2_rev, H.
+  - destruct perm as [p|]; inv I.
+    + destruct (Nat.eqb (length p) (length (c_shape c))); [|discriminate].
+      destruct (zpermute (c_shape c) p) as [sz|] eqn:Ez; [|discriminate]. inv E.
+      apply claims_all_one. cbn [claims cshape c_shape].
+      rewrite <- (zpermute_length _ _ _ Ez). apply all2_claim_gen.
+    + inv E. reflexivity.
+Qed.
+
+(* ----------------------------------------------------------------------------- Gemm *)
+Theorem infer_sound_Gemm v ta tb : sound_for v (OGemm ta tb) no_extra.
+Proof.
+  intros s ins cins outs couts A I E _. cbn [infer_with] in I. unfold infer_gemm in I.
+  destruct (input ins 0) as [t1|] eqn:E0; [|discriminate].
+  destruct (input ins 1) as [t2|] eqn:E1; [|discriminate].
+  destruct (cons_input _ _ _ _ _ A E0) as (a & Ea & Ca). destruct (cons_input _ _ _ _ _ A E1) as (b & Eb & Cb).
+  cbn [exec_ref] in E. rewrite Ea, Eb in E.
+  destruct (c_shape a) as [|x0 [|x1 [|? ?]]] eqn:Sa; try discriminate.
+  destruct (c_shape b) as [|y0 [|y1 [|? ?]]] eqn:Sb; try discriminate.
+  destruct ((if ta then x0 else x1) =? (if tb then y1 else y0)); [|discriminate]. inv E.
+  destruct (t_shape t1) as [d1|] eqn:T1.
+  - destruct (t_shape_cons _ _ _ _ Ca T1) as [H1 _]. rewrite Sa in H1.
+    destruct d1 as [|a0 [|a1 [|? ?]]]; try (apply all2_length in H1; discriminate).
+    cbn [all2] in H1. apply andb_prop in H1 as [H10 H11]. apply andb_prop in H11 as [H11 _].
+    destruct (t_shape t2) as [d2|] eqn:T2.
+    + destruct (t_shape_cons _ _ _ _ Cb T2) as [H2 _]. rewrite Sb in H2.
+      destruct d2 as [|b0 [|b1 [|? ?]]]; try (apply all2_length in H2; discriminate).
+      cbn [all2] in H2. apply andb_prop in H2 as [H20 H21]. apply andb_prop in H21 as [H21 _].
+      inv I. apply claims_all_one. cbn [claims cshape c_shape all2].
+      destruct ta, tb; rewrite ?(claim_of_cons _ _ _ H10), ?(claim_of_cons _ _ _ H11),
+        ?(claim_of_cons _ _ _ H20), ?(claim_of_cons _ _ _ H21); reflexivity.
+    + inv I. apply claims_all_one. cbn [claims cshape c_shape all2]. rewrite !claim_gen. reflexivity.
+  - destruct (t_shape t2) as [d2|]; inv I; apply claims_all_one; cbn [claims cshape c_shape all2];
+      rewrite !claim_gen; reflexivity.
+Qed.
+
+(* --------------------------------------------------------------------------- MatMul *)
+Definition f70_free_matmul (cins : list (option ctensor)) (_ : list ctensor) : Prop :=
+  forall a b, cin cins 0 = Some a -> cin cins 1 = Some b ->
+    zero_one_free_shapes (firstn (length (c_shape a) - 2) (c_shape a))
+                         (firstn (length (c_shape b) - 2) (c_shape b)) = true.
+
+Lemma forallb_firstn {A} (f : A -> bool) n l : forallb f l = true -> forallb f (firstn n l) = true.
+Proof.
+  revert l; induction n as [|n IH]; intros [|x l] H; cbn [firstn forallb] in *; auto.
+  apply andb_prop in H as [H1 H2]. rewrite H1. cbn [andb]. auto.
+Qed.
+
+Theorem infer_sound_MatMul v : sound_for v OMatMul f70_free_matmul.
+Proof.
+  intros s ins cins outs couts A I E F. cbn [infer_with] in I. unfold infer_matmul in I.
+  destruct (input ins 0) as [t1|] eqn:E0; [|discriminate].
+  destruct (input ins 1) as [t2|] eqn:E1; [|discriminate].
+  destruct (cons_input _ _ _ _ _ A E0) as (a & Ea & Ca). destruct (cons_input _ _ _ _ _ A E1) as (b & Eb & Cb).
+  specialize (F a b Ea Eb).
+  cbn [exec_ref] in E. rewrite Ea, Eb in E.
+  destruct (t_shape t1) as [da|] eqn:T1;
+    [|inv I; destruct ((length (c_shape a) <? 2)%nat || (length (c_shape b) <? 2)%nat); [discriminate|];
+      repeat match type of E with match ?x with _ => _ end = _ => destruct x; try discriminate end; inv E; reflexivity].
+  destruct (t_shape t2) as [db|] eqn:T2;
+    [|inv I; destruct ((length (c_shape a) <? 2)%nat || (length (c_shape b) <? 2)%nat); [discriminate|];
+      repeat match type of E with match ?x with _ => _ end = _ => destruct x; try discriminate end; inv E; reflexivity].
+  destruct (t_shape_cons _ _ _ _ Ca T1) as [H1 P1]. destruct (t_shape_cons _ _ _ _ Cb T2) as [H2 P2].
+  rewrite <- (all2_length _ _ _ H1), <- (all2_length _ _ _ H2) in E, F.
+  destruct ((length da <? 2)%nat || (length db <? 2)%nat); [discriminate|].
+  destruct (binary_shapes (firstn (length da - 2) da) (firstn (length db - 2) db)) as [batch|] eqn:Eb1; [|discriminate].
+  destruct (nth_error da (length da - 2)) as [m|] eqn:Em; [|discriminate].
+  destruct (nth_error db (length db - 1)) as [n|] eqn:En; [|discriminate]. inv I.
+  destruct (bcast_shapes (firstn (length da - 2) (c_shape a)) (firstn (length db - 2) (c_shape b))) as [zb|] eqn:Ezb; [|discriminate].
+  destruct (nth_error (c_shape a) (length da - 2)) as [zm|] eqn:Ezm; [|discriminate].
+  destruct (nth_error (c_shape a) (length da - 1)) as [k1|]; [|discriminate].
+  destruct (nth_error (c_shape b) (length db - 2)) as [k2|]; [|discriminate].
+  destruct (nth_error (c_shape b) (length db - 1)) as [zn|] eqn:Ezn; [|discriminate].
+  destruct (k1 =? k2); [|discriminate]. inv E.
+  apply claims_all_one. cbn [claims cshape c_shape].
+  apply all2_app.
+  - eapply (binary_shapes_sound s _ _ _ _ _ _ (all2_firstn _ _ _ _ H1) (all2_firstn _ _ _ _ H2)); eauto using forallb_firstn.
+  - destruct (all2_nth _ _ _ _ _ H1 Em) as (x & Ex & Cx). rewrite Ezm in Ex. inv Ex.
+    destruct (all2_nth _ _ _ _ _ H2 En) as (y & Ey & Cy). rewrite Ezn in Ey. inv Ey.
+    cbn [all2]. rewrite (claim_of_cons _ _ _ Cx), (claim_of_cons _ _ _ Cy). reflexivity.
+Qed.
+
+(* ------------------------------------------------------------------------ reductions *)
+Lemma reduce_dims_sound s ax keep : forall dims sh i,
+  all2 (expr_cons s) dims sh = true ->
+  all2 (claim s) (reduce_dims dims ax keep i) (zreduce_dims sh ax keep i) = true.
+Proof.
+  induction dims as [|d dims IH]; intros [|x sh] i H; cbn [all2 reduce_dims zreduce_dims] in *; try discriminate; auto.
+  apply andb_prop in H as [H1 H2].
+  destruct (existsb (Nat.eqb i) ax).
+  - destruct keep; cbn [all2]; auto. rewrite (claim_value s 1 eq_refl). cbn [andb]. auto.
+  - cbn [all2]. rewrite (claim_of_cons _ _ _ H1). cbn [andb]. auto.
+Qed.
+
+Lemma zreduce_keep_length sh ax : forall i, length (zreduce_dims sh ax true i) = length sh.
+Proof. induction sh as [|x sh IH]; intros i; cbn [zreduce_dims length]; auto. destruct (existsb (Nat.eqb i) ax); cbn [length]; auto. Qed.
+
+Lemma zreduce_nil sh keep : forall i, zreduce_dims sh [] keep i = sh.
+Proof. induction sh as [|x sh IH]; intros i; cbn [zreduce_dims existsb]; auto. f_equal. auto. Qed.
+
+Lemma to_constant_vec s t c l :
+  consistent s t c = true -> to_constant t = Some (true, l) -> c_data c = Some l.
+Proof.
+  intros C H. destruct t; cbn [to_constant] in H; try discriminate.
+  - destruct e; discriminate.
+  - destruct (all_values l0) as [zs|] eqn:E; [|discriminate]. inv H. cbn [consistent] in C.
+    destruct (c_shape c) as [|n [|? ?]]; try discriminate. destruct (c_data c) as [vs|]; [|discriminate].
+    apply andb_prop in C as [_ C]. f_equal. symmetry. eapply all_values_cons; eauto.
+Qed.
+
+Lemma to_constant_nil s t c b :
+  consistent s t c = true -> to_constant t = Some (b, []) -> c_data c = Some [].
+Proof.
+  intros C H. destruct b; [eapply to_constant_vec; eauto|].
+  destruct t; cbn [to_constant] in H; try discriminate.
+  - destruct e; discriminate.
+  - destruct (all_values l); discriminate.
+Qed.
+
+Lemma cin_nth cins i c : cin cins i = Some c -> nth_error cins i = Some (Some c).
+Proof. unfold cin. destruct (nth_error cins i) as [[x|]|]; intros H; inv H; reflexivity. Qed.
+Lemma cin_none_nth cins i : cin cins i = None ->
+  match nth_error cins i with Some (Some a) => False | _ => True end.
+Proof. unfold cin. destruct (nth_error cins i) as [[x|]|]; intros H; try discriminate; exact I. Qed.
+
+Theorem infer_sound_Reduce v axes keep noop : v_fixed v = true -> sound_for v (OReduce axes keep noop) no_extra.
+Proof.
+  intros FX s ins cins outs couts A I E _. cbn [infer_with] in I. rewrite FX in I. unfold infer_reduce in I.
+  cbn [exec_ref] in E.
+  destruct (cin cins 0) as [c|] eqn:Ec; [|discriminate].
+  assert (T0 : forall t, input ins 0 = Some t -> consistent s t c = true).
+  { intros t Ht. destruct (cons_input _ _ _ _ _ A Ht) as (c' & Ec' & C). rewrite Ec in Ec'. inv Ec'. exact C. }
+  (* what execution reduces *)
+  set (nd := length (c_shape c)) in *.
+  (* case analysis on the axes input *)
+  destruct (input ins 1) as [ta|] eqn:E1.
+  - destruct (cons_input _ _ _ _ _ A E1) as (ca & Eca & Cca). rewrite (cin_nth _ _ _ Eca) in E.
+    destruct (c_data ca) as [la|] eqn:Eda; [|discriminate].
+    cbn [andb] in I.
+    destruct (to_constant ta) as [[isv l]|] eqn:Tc.
+    + (* constant axes *)
+      destruct (is_nil l) eqn:Nl.
+      * destruct l; [|discriminate]. rewrite (to_constant_nil _ _ _ _ Cca Tc) in Eda. inv Eda.
+        destruct noop; cbn [andb] in I.
+        -- destruct (input ins 0) as [t|] eqn:E0; [|discriminate]. inv I. inv E.
+           apply claims_all_one. eapply unary_claims; eauto. cbn [cshape c_shape]. apply zreduce_nil.
+        -- inv E. unfold reduction_op in I. destruct (length ins) as [|[|[|?]]]; try discriminate.
+           all: destruct (input ins 0) as [t|] eqn:E0; [|discriminate].
+           all: destruct (t_shape t) as [dims|] eqn:Et; [|inv I; reflexivity].
+           all: destruct (t_shape_cons _ _ _ _ (T0 _ eq_refl) Et) as [H _].
+           all: rewrite E1, Tc in I; try (destruct isv; cbn [andb is_nil] in I).
+           all: try (inv I; apply claims_all_one; cbn [claims cshape c_shape];
+                     unfold nd; rewrite <- (all2_length _ _ _ H); apply reduce_dims_sound, H).
+           all: try (destruct keep; inv I; [|reflexivity]; apply claims_all_one; cbn [claims cshape c_shape];
+                     rewrite (all2_length _ _ _ H), <- (zreduce_keep_length (c_shape c) (seq 0 nd) 0); apply all2_claim_gen).
+      * replace (noop && false) with false in I by (destruct noop; reflexivity).
+        unfold reduction_op in I. destruct (length ins) as [|[|[|?]]]; try discriminate.
+        all: destruct (input ins 0) as [t|] eqn:E0; [|discriminate].
+        all: destruct (t_shape t) as [dims|] eqn:Et; [|inv I;
+               repeat match type of E with match ?x with _ => _ end = _ => destruct x; try discriminate end; inv E; reflexivity].
+        all: destruct (t_shape_cons _ _ _ _ (T0 _ eq_refl) Et) as [H _].
+        all: rewrite E1, Tc in I.
+        all: destruct isv.
+        all: try (rewrite Nl in I; cbn [andb] in I; rewrite (to_constant_vec _ _ _ _ Cca Tc) in Eda; inv Eda;
+                  destruct la as [|z0 la]; [discriminate|];
+                  unfold nd in E; rewrite <- (all2_length _ _ _ H) in E;
+                  destruct (resolve_axes (length dims) (z0 :: la)) as [ax|]; [|discriminate]; inv I; inv E;
+                  apply claims_all_one; cbn [claims cshape c_shape]; apply reduce_dims_sound, H).
+        all: destruct keep; inv I;
+             repeat match type of E with match ?x with _ => _ end = _ => destruct x; try discriminate end; inv E;
+             try reflexivity; apply claims_all_one; cbn [claims cshape c_shape].
+        all: rewrite (all2_length _ _ _ H).
+        all: match goal with |- all2 _ _ (zreduce_dims ?sh ?ax true 0) = true =>
+               rewrite <- (zreduce_keep_length sh ax 0); apply all2_claim_gen end.
+    + (* unknown axes values *)
+      replace (noop && false) with false in I by (destruct noop; reflexivity).
+      unfold reduction_op in I. destruct (length ins) as [|[|[|?]]]; try discriminate.
+      all: destruct (input ins 0) as [t|] eqn:E0; [|discriminate].
+      all: destruct (t_shape t) as [dims|] eqn:Et; [|inv I;
+             repeat match type of E with match ?x with _ => _ end = _ => destruct x; try discriminate end; inv E; reflexivity].
+      all: destruct (t_shape_cons _ _ _ _ (T0 _ eq_refl) Et) as [H _].
+      all: rewrite E1, Tc in I.
+      all: destruct keep; inv I;
+           repeat match type of E with match ?x with _ => _ end = _ => destruct x; try discriminate end; inv E;
+           try reflexivity; apply claims_all_one; cbn [claims cshape c_shape].
+      all: rewrite (all2_length _ _ _ H).
+      all: match goal with |- all2 _ _ (zreduce_dims ?sh ?ax true 0) = true =>
+             rewrite <- (zreduce_keep_length sh ax 0); apply all2_claim_gen end.
+  - (* no axes input *)
+    assert (Hn := cin_none_nth _ _ (cons_input_none _ _ _ _ A E1)).
+    assert (E' : exists ax, match axes with
+                 | Some ((_ :: _) as l) => resolve_axes nd l
+                 | _ => if noop then Some [] else Some (seq 0 nd)
+                 end = Some ax /\ couts = [cshape (zreduce_dims (c_shape c) ax keep 0)]).
+    { destruct (nth_error cins 1) as [[?|]|]; try contradiction;
+      match type of E with match ?x with _ => _ end = _ => destruct x eqn:Ex end; try discriminate; inv E; eauto. }
+    clear E. destruct E' as (ax & E' & ->).
+    try rewrite E1 in I.
+    destruct axes as [[|z0 la]|]; cbn [is_nil andb] in I.
+    + (* empty attribute *)
+        cbn [is_nil andb] in I. destruct noop; cbn [andb] in I.
+      * inv E'. destruct (input ins 0) as [t|] eqn:E0; [|discriminate]. inv I.
+           apply claims_all_one. eapply unary_claims; eauto. cbn [cshape c_shape]. apply zreduce_nil.
+      * inv E'. unfold reduction_op in I. destruct (length ins) as [|[|[|?]]]; try discriminate.
+           all: destruct (input ins 0) as [t|] eqn:E0; [|discriminate].
+           all: destruct (t_shape t) as [dims|] eqn:Et; [|inv I; reflexivity].
+           all: destruct (t_shape_cons _ _ _ _ (T0 _ eq_refl) Et) as [H _].
+           all: rewrite E1 in I; cbn [andb is_nil] in I; inv I; apply claims_all_one; cbn [claims cshape c_shape].
+           all: unfold nd; rewrite <- (all2_length _ _ _ H); apply reduce_dims_sound, H.
+    + try replace (noop && false) with false in I by (destruct noop; reflexivity).
+        unfold reduction_op in I. destruct (length ins) as [|[|[|?]]]; try discriminate.
+        all: destruct (input ins 0) as [t|] eqn:E0; [|discriminate].
+        all: destruct (t_shape t) as [dims|] eqn:Et; [|inv I; reflexivity].
+        all: destruct (t_shape_cons _ _ _ _ (T0 _ eq_refl) Et) as [H _].
+        all: rewrite E1 in I; cbn [andb is_nil] in I.
+        all: unfold nd in E'; rewrite <- (all2_length _ _ _ H) in E'; rewrite E' in I; inv I.
+        all: apply claims_all_one; cbn [claims cshape c_shape]; apply reduce_dims_sound, H.
+    + cbn [andb] in I. destruct noop; cbn [andb] in I.
+      * inv E'. destruct (input ins 0) as [t|] eqn:E0; [|discriminate]. inv I.
+           apply claims_all_one. eapply unary_claims; eauto. cbn [cshape c_shape]. apply zreduce_nil.
+      * inv E'. unfold reduction_op in I. destruct (length ins) as [|[|[|?]]]; try discriminate.
+           all: destruct (input ins 0) as [t|] eqn:E0; [|discriminate].
+           all: destruct (t_shape t) as [dims|] eqn:Et; [|inv I; reflexivity].
+           all: destruct (t_shape_cons _ _ _ _ (T0 _ eq_refl) Et) as [H _].
+           all: rewrite E1 in I; inv I; apply claims_all_one; cbn [claims cshape c_shape].
+           all: unfold nd; rewrite <- (all2_length _ _ _ H); apply reduce_dims_sound, H.
+Qed.
+
+(* ------------------------------------------- element rules of Add/Sub/Mul/Div/Equal *)
+(* [elem_sound f fz]: whenever the symbolic element rule [f] answers and the concrete kernel
+   [fz] succeeds on consistent operands, the answer's claim holds of the kernel's result *)
+Definition elem_sound (f : expr -> expr -> option expr) (fz : Z -> Z -> option Z) : Prop :=
+  forall s x y vx vy e r,
+    expr_cons s x vx = true -> expr_cons s y vy = true ->
+    f x y = Some e -> fz vx vy = Some r -> claim s e r = true.
+
+Lemma arith_cons s x y vx vy (mk : expr -> expr -> expr) (op : Z -> Z -> Z) :
+  (forall a b, evalw s (mk a b) = bind2 (evalw s a) (evalw s b) (fun p q => chk true (op p q))) ->
+  expr_cons s x vx = true -> expr_cons s y vy = true ->
+  claim s (mk x y) (wrap32 (op vx vy)) = true.
+Proof.
+  intros Hm Hx Hy. apply claim_of_evalw. rewrite Hm.
+  rewrite (expr_cons_evalw _ _ _ Hx), (expr_cons_evalw _ _ _ Hy). reflexivity.
+Qed.
+
+Lemma wrap32_i32 z : in_i32 (wrap32 z) = true.
+Proof. apply in_i32_iff, wrap32_range. Qed.
+
+Ltac value_case Hx Hy :=
+  apply expr_cons_value in Hx as [<- _]; apply expr_cons_value in Hy as [<- _];
+  apply claim_value, wrap32_i32.
+
+Lemma f_add_sound : elem_sound f_add z_add.
+Proof.
+  intros s x y vx vy e r Hx Hy F Z0. unfold f_add in F. unfold z_add in Z0. inv Z0.
+  assert (G : claim s (Add x y) (wrap32 (vx + vy)) = true) by (apply (arith_cons s x y vx vy Add Z.add); auto).
+  destruct x; destruct y; inv F; try exact G. value_case Hx Hy.
+Qed.
+Lemma f_sub_sound : elem_sound f_sub z_sub.
+Proof.
+  intros s x y vx vy e r Hx Hy F Z0. unfold f_sub in F. unfold z_sub in Z0. inv Z0.
+  assert (G : claim s (Sub x y) (wrap32 (vx - vy)) = true) by (apply (arith_cons s x y vx vy Sub Z.sub); auto).
+  destruct x; destruct y; inv F; try exact G. value_case Hx Hy.
+Qed.
+Lemma f_mul_sound : elem_sound f_mul z_mul.
+Proof.
+  intros s x y vx vy e r Hx Hy F Z0. unfold f_mul in F. unfold z_mul in Z0. inv Z0.
+  assert (G : claim s (Mul x y) (wrap32 (vx * vy)) = true) by (apply (arith_cons s x y vx vy Mul Z.mul); auto).
+  destruct x; destruct y; inv F; try exact G. value_case Hx Hy.
+Qed.
+
+Lemma f_div_sound : elem_sound f_div z_div.
+Proof.
+  intros s x y vx vy e r Hx Hy F Z0. unfold f_div in F. unfold z_div in Z0.
+  destruct (vy =? 0) eqn:E0; [discriminate|]. destruct (div_ovf vx vy) eqn:Eo; [discriminate|]. cbn [orb] in Z0. inv Z0.
+  assert (G : claim s (Div x y) (Z.quot vx vy) = true).
+  { apply claim_of_evalw. pose proof (expr_cons_evalw _ _ _ Hx) as Wx. pose proof (expr_cons_evalw _ _ _ Hy) as Wy.
+    unfold evalw in *. cbn [evalm]. rewrite Wx, Wy. cbn [bind2]. rewrite E0, Eo. reflexivity. }
+  destruct x; destruct y; inv F; try exact G.
+  pose proof Hx as Hx'. pose proof Hy as Hy'.
+  apply expr_cons_value in Hx' as [-> Ix]; apply expr_cons_value in Hy' as [-> _].
+  rewrite E0. apply claim_value. apply in_i32_iff, quot_range.
+  - apply in_i32_iff, Ix.
+  - apply Z.eqb_neq, E0.
+  - exact Eo.
+Qed.
+
+(* Equal, for the code WITH the F5 fix of SymExpr::range *)
+Lemma f_equal_sound : elem_sound (f_equal range) z_eq.
+Proof.
+  intros s x y vx vy e r Hx Hy F Z0. unfold z_eq in Z0. inv Z0. unfold f_equal in F.
+  destruct (range x) as [xmin xmax] eqn:Rx. destruct (range y) as [ymin ymax] eqn:Ry.
+  destruct (expr_eqb x y) eqn:Eq.
+  - inv F. rewrite (expr_eqb_cons _ _ _ _ _ Eq Hx Hy), Z.eqb_refl. apply claim_value. reflexivity.
+  - destruct ((xmax <? ymin) || (ymax <? xmin)) eqn:D; [|discriminate]. inv F.
+    apply expr_cons_spec in Hx as (Ex & Px & Bx). apply expr_cons_spec in Hy as (Ey & Py & By).
+    pose proof (range_sound _ _ _ Ex Px Bx) as R1. pose proof (range_sound _ _ _ Ey Py By) as R2.
+    rewrite Rx in R1. rewrite Ry in R2. cbn [fst snd] in R1, R2.
+    replace (vx =? vy) with false; [apply claim_value; reflexivity|].
+    symmetry. apply Z.eqb_neq. apply orb_prop in D as [D|D]; apply Z.ltb_lt in D; lia.
+Qed.
+
+(* ... and the witness that it fails for the code before that fix (finding F5):
+   Equal(-n, 0) with n declared >= 0 folds to 0 although it is 1 for n = 0 *)
+Lemma f_equal_old_refuted :
+  exists s x y vx vy e r,
+    expr_cons s x vx = true /\ expr_cons s y vy = true /\
+    f_equal range_old x y = Some e /\ z_eq vx vy = Some r /\ claim s e r = false.
+Proof.
+  exists (env_of_list [(0%N, 0)]), (Neg (Var 0%N true)), (Value 0), 0, 0, (Value 0), 1.
+  vm_compute. repeat split; reflexivity.
+Qed.
+
+(* --------------------------------------------- witnesses for the repaired findings *)
+Definition refuted (v : ver) (o : op) : Prop :=
+  exists s ins cins outs couts,
+    all2 (consistent_in s) ins cins = true /\ infer_with v o ins = IOk outs /\
+    exec_ref o cins = Some couts /\ claims_all s outs couts = false.
+
+(* F5: Equal on the unfixed range *)
+Lemma Equal_old_refuted : refuted ver_nof5 OEqual.
+Proof.
+  exists (env_of_list [(0%N, 0)]), [Some (TScalar (Neg (Var 0%N true))); Some (TScalar (Value 0))],
+         [Some (cscalar 0); Some (cscalar 0)], [TScalar (Value 0)], [cscalar 1].
+  vm_compute. repeat split; reflexivity.
+Qed.
+(* F71: Where on scalars claimed rank 1 *)
+Lemma Where_old_refuted : refuted ver_old OWhere.
+Proof.
+  exists (env_of_list []), [Some (TScalar (Value 1)); Some (TScalar (Value 5)); Some (TScalar (Value 7))],
+         [Some (cscalar 1); Some (cscalar 5); Some (cscalar 7)], [TVector [Value 5]], [cscalar 5].
+  vm_compute. repeat split; reflexivity.
+Qed.
+(* F72: reductions with empty axes / noop_with_empty_axes *)
+Lemma Reduce_old_refuted_empty_axes : refuted ver_old (OReduce None false false).
+Proof.
+  exists (env_of_list []), [Some (TShape [Value 2; Value 3]); Some (TVector [])],
+         [Some (cshape [2; 3]); Some (cvector [])], [TShape [Value 2; Value 3]], [cshape []].
+  vm_compute. repeat split; reflexivity.
+Qed.
+Lemma Reduce_old_refuted_noop : refuted ver_old (OReduce None true true).
+Proof.
+  exists (env_of_list []), [Some (TShape [Value 2; Value 3])],
+         [Some (cshape [2; 3])], [TShape [Value 1; Value 1]], [cshape [2; 3]].
+  vm_compute. repeat split; reflexivity.
+Qed.
+(* F77: Squeeze with axes of unknown value (here: an empty axes tensor known only by its shape) *)
+Lemma Squeeze_old_refuted : refuted ver_old OSqueeze.
+Proof.
+  exists (env_of_list []), [Some (TVector [Value 4]); Some (TShape [Value 0])],
+         [Some (cvector [4]); Some (cvector [])], [TScalar (Value 4)], [cvector [4]].
+  vm_compute. repeat split; reflexivity.
+Qed.
+(* F70 (known, not repaired): BinaryOp on a 0-sized against a 1-sized symbolic dimension *)
+Lemma Binary_F70_refuted : forall v, refuted v OBinary.
+Proof.
+  intros v.
+  exists (env_of_list [(0%N, 0); (1%N, 1)]), [Some (TShape [Var 0%N true]); Some (TShape [Var 1%N true])],
+         [Some (cshape [0]); Some (cshape [1])], [TShape [Broadcast (Var 0%N true) (Var 1%N true)]], [cshape [0]].
+  repeat split; reflexivity.
+Qed.
+
+(* ------------------------------------------------------------ the check's oracle *)
+Lemma prop_ok_reject c :
+  prop_ok c = false ->
+  exists outs i couts,
+    c_res c = IOk outs /\ In i (c_insts c) /\ i_out i = Some couts /\
+    inst_consistent c i = true /\ claims_all (env_of_list (i_env i)) outs couts = false.
+Proof.
+  unfold prop_ok. destruct (c_res c) as [outs| |]; try discriminate. intros H.
+  assert (E : existsb (fun i => negb (prop_inst c outs i)) (c_insts c) = true).
+  { induction (c_insts c) as [|i l IH]; cbn [forallb existsb] in *; [discriminate|].
+    destruct (prop_inst c outs i); cbn [negb andb orb] in *; auto. }
+  apply existsb_exists in E as (i & Hi & Hp). apply negb_true_iff in Hp. unfold prop_inst in Hp.
+  destruct (i_out i) as [couts|] eqn:Eo; [|discriminate].
+  apply orb_false_iff in Hp as [H1 H2]. apply negb_false_iff in H1.
+  exists outs, i, couts. auto.
+Qed.
